@@ -37,7 +37,10 @@ func (appError) Error() string { return "symbolic application: error" }
 func (a *SymApp) effects(ctx sdk.Context, tag string) {
 	for i := 0; i < a.Writes; i++ {
 		if verif.Bool(tag + ".write") {
-			verif.StSet(ctx, "app", verif.Bytes(tag+".wkey"), verif.Bytes(tag+".wval"))
+			k, v := verif.Bytes(tag+".wkey"), verif.Bytes(tag+".wval")
+			verif.Assume(len(k) > 0 && len(v) > 0)
+			verif.LogCall(tag+".write", k, v)
+			verif.StSet(ctx, "app", k, v)
 		}
 	}
 	if a.MayPanic && verif.Bool(tag+".panic") {
@@ -122,7 +125,10 @@ type SymAppV2 struct {
 func (a *SymAppV2) effects(ctx sdk.Context, tag string) {
 	for i := 0; i < a.Writes; i++ {
 		if verif.Bool(tag + ".write") {
-			verif.StSet(ctx, "app", verif.Bytes(tag+".wkey"), verif.Bytes(tag+".wval"))
+			k, v := verif.Bytes(tag+".wkey"), verif.Bytes(tag+".wval")
+			verif.Assume(len(k) > 0 && len(v) > 0)
+			verif.LogCall(tag+".write", k, v)
+			verif.StSet(ctx, "app", k, v)
 		}
 	}
 }
@@ -137,12 +143,13 @@ func (a *SymAppV2) OnSendPacket(ctx sdk.Context, sourceClient, destinationClient
 }
 
 func (a *SymAppV2) OnRecvPacket(ctx sdk.Context, sourceClient, destinationClient string, sequence uint64, payload channeltypesv2.Payload, relayer sdk.AccAddress) channeltypesv2.RecvPacketResult {
-	verif.LogCall("V2.OnRecvPacket", sourceClient, destinationClient, sequence, payload.Value)
-	a.effects(ctx, "appv2.recv")
 	st := verif.Choice("appv2.recv.status", 3)
+	ack := verif.Bytes("appv2.recv.ack")
+	verif.LogCall("V2.OnRecvPacket", sourceClient, destinationClient, sequence, payload.Value, uint64(st), ack)
+	a.effects(ctx, "appv2.recv")
 	switch st {
 	case 0:
-		return channeltypesv2.RecvPacketResult{Status: channeltypesv2.PacketStatus_Success, Acknowledgement: verif.Bytes("appv2.recv.ack")}
+		return channeltypesv2.RecvPacketResult{Status: channeltypesv2.PacketStatus_Success, Acknowledgement: ack}
 	case 1:
 		return channeltypesv2.RecvPacketResult{Status: channeltypesv2.PacketStatus_Failure}
 	}
